@@ -30,6 +30,9 @@ func init() {
 		Assumptions: []string{"resource.Value/Collection write semantics (C02, C05)", "unitpb.Convert32 arithmetic (C18)"},
 		Run:         runC20,
 		Controls: []Control{
+			{Name: "revert-F66-step-added-unreduced", File: "pkg/trait/modepb/model_server.go", Old: "newI := (int32(i) + adjustment%int32(len(values))) % int32(len(values))", New: "newI := (int32(i) + adjustment) % int32(len(values))", Expect: "R20.20"},
+			{Name: "zero-amount-converts-between-anything", File: "pkg/trait/vendingpb/unitpb/convert.go", Old: "\tif from == to {\n\t\treturn v, nil", New: "\tif from == to || v == 0 {\n\t\treturn v, nil", Expect: "R20.14"},
+			{Name: "fanspeed-defaults-after-callers-options", File: "pkg/trait/fanspeedpb/model_opts.go", Old: "\targs.apply(DefaultModelOptions...)\n\targs.apply(opts...)\n", New: "\targs.apply(opts...)\n\targs.apply(DefaultModelOptions...)\n", Expect: "R20.19"},
 			{Name: "meter-initial-stamp-from-wall-clock", File: "pkg/trait/meterpb/model.go", Old: "\t\tnow := value.Clock().Now()\n", New: "\t\tnow := time.Now()\n", Expect: "R20.18"},
 			{Name: "echoed-total-not-counted", File: "pkg/trait/enterleavesensorpb/model.go", Old: "\t\t\tif val != nil && *val != cv {\n", New: "\t\t\tif val != nil {\n", Expect: "R20.9"},
 			{Name: "revert-F62-empty-preset-name-looked-up", File: "pkg/trait/fanspeedpb/model.go", Old: "\tif newVal.Preset != \"\" && oldVal.Preset != newVal.Preset {\n", New: "\tif oldVal.Preset != newVal.Preset {\n", Expect: "R20.17"},
@@ -65,6 +68,10 @@ func runC20(c *an.Ctx) {
 	r2017(c, "R20.17")
 	r2018(c, "R20.18")
 	c.Min("R20.18", 3)
+	r2020(c, "R20.20")
+	c.Min("R20.20", 1)
+	rDefaultsFirst(c, "R20.19", "pkg/trait")
+	c.Min("R20.19", 12)
 	c.Min("R20.17", 1)
 	// defaults first, the caller's options last: an append onto the caller's variadic options puts the defaults after them,
 	// where they override what the caller configured (shared with R11.7, which reports the same construct as a race)
@@ -1912,6 +1919,48 @@ func r2014(c *an.Ctx) {
 	if n == 0 {
 		c.Unk(rule, name+"|a unit that is not in the table is an error", fn.Pos(), "no lookup in a unit table found")
 	}
+	// the only way to succeed without consulting the table is the identity: from == to, whatever the amount. An early
+	// success under any other condition (`|| v == 0`) answers nil for units that cannot be converted into each other.
+	if len(fn.Params) == 3 {
+		var lookups []ssa.Instruction
+		an.Instrs(fn, func(in ssa.Instruction) {
+			if lk, ok := in.(*ssa.Lookup); ok {
+				lookups = append(lookups, lk)
+			}
+		})
+		early, okEarly, where := 0, true, fn.Pos()
+		for _, r := range an.Returns(fn) {
+			if r.Block() == fn.Recover || !provablyNilAt(r.Results[len(r.Results)-1], r) {
+				continue
+			}
+			after := false
+			for _, lk := range lookups {
+				if an.Reaches(lk, r) {
+					after = true
+				}
+			}
+			if after {
+				continue
+			}
+			early++
+			identity := false
+			for _, e := range an.GuardingEdges(r) {
+				bo, isBo := e.If.Cond.(*ssa.BinOp)
+				if !isBo {
+					continue
+				}
+				same := (bo.X == ssa.Value(fn.Params[1]) && bo.Y == ssa.Value(fn.Params[2])) || (bo.X == ssa.Value(fn.Params[2]) && bo.Y == ssa.Value(fn.Params[1]))
+				if same && ((bo.Op == token.EQL && e.Branch) || (bo.Op == token.NEQ && !e.Branch)) {
+					identity = true
+				}
+			}
+			if !identity {
+				okEarly, where = false, r.Pos()
+			}
+		}
+		c.Check(okEarly, rule, name+"|success without the table only for identical units", where, fmt.Sprintf("%d early successes, each behind from == to", early),
+			"Convert returns success without having looked the units up on a path that is not guarded by from == to: for that input units of different categories (or unknown ones) convert without an error")
+	}
 }
 
 // r2015: a publication that gets new content starts unacknowledged. Whether the receipt is reset is decided by the
@@ -2172,4 +2221,177 @@ func r2018(c *an.Ctx, rule string) {
 		c.Bad(rule, pk+"|every time comes from the model's clock", pi.wall[0].Pos(), "the package takes times from the resource's / model's clock and, in "+strings.Join(an.SortedKeys(pi.fns), ", ")+", from the wall clock as well: a model built with a configured clock stamps some of its times with time.Now(), so values that should agree (a meter's start and end time, an initial value and the first reading) come from two time lines")
 	}
 	c.Count("packages_with_a_model_clock", n)
+}
+
+// rDefaultsFirst: options are last-wins, so a constructor that applies its package's default option list and the
+// caller's options applies the defaults FIRST. `args.apply(opts...); args.apply(DefaultModelOptions...)` overrides
+// what the caller configured (its clock, its initial value, its presets) with the defaults. For every variadic
+// function of the trait packages that hands both a package-level option list and its own variadic parameter to
+// the same function, the call with the defaults dominates the call with the caller's options.
+func rDefaultsFirst(c *an.Ctx, rule, prefix string) {
+	n := 0
+	for _, fn := range c.Prog.FuncsIn(prefix) {
+		if c.Prog.IsGenerated(fn.Pos()) || fn.Parent() != nil || !fn.Signature.Variadic() || len(fn.Params) == 0 {
+			continue
+		}
+		vp := fn.Params[len(fn.Params)-1]
+		type site struct {
+			call     *ssa.Call
+			defaults bool
+		}
+		byCallee := map[string][]site{}
+		an.Instrs(fn, func(in ssa.Instruction) {
+			call, ok := in.(*ssa.Call)
+			if !ok || len(call.Call.Args) == 0 || call.Call.StaticCallee() == nil || !call.Call.StaticCallee().Signature.Variadic() {
+				return
+			}
+			last := call.Call.Args[len(call.Call.Args)-1]
+			fromCaller, fromGlobal := false, false
+			for _, v := range localValues(last, 0) {
+				if v == ssa.Value(vp) {
+					fromCaller = true
+				}
+				if u, isU := v.(*ssa.UnOp); isU && u.Op == token.MUL {
+					if _, isG := u.X.(*ssa.Global); isG {
+						fromGlobal = true
+					}
+				}
+			}
+			if fromCaller == fromGlobal {
+				return
+			}
+			k := an.CalleeName(call)
+			byCallee[k] = append(byCallee[k], site{call, fromGlobal})
+		})
+		for _, k := range an.SortedKeys(byCallee) {
+			var defs, callers []*ssa.Call
+			for _, s := range byCallee[k] {
+				if s.defaults {
+					defs = append(defs, s.call)
+				} else {
+					callers = append(callers, s.call)
+				}
+			}
+			if len(defs) == 0 || len(callers) == 0 {
+				continue
+			}
+			n++
+			c.SawFunc(an.FuncName(fn))
+			ok := true
+			for _, d := range defs {
+				for _, cl := range callers {
+					if !an.Dominates(d, cl) {
+						ok = false
+					}
+				}
+			}
+			c.Check(ok, rule, an.FuncName(fn)+"|defaults are applied before the caller's options", callers[0].Pos(), "the call with the package defaults dominates the call with the caller's options",
+				"the caller's options are applied before the package defaults: options are last-wins, so every default (clock, initial value, presets) overrides what the caller configured")
+		}
+	}
+	c.Count("constructors_with_defaults", n)
+}
+
+// r2020: a relative mode step wraps around the table for EVERY int32 step. The new index is (i + step) mod n computed
+// in int32: with the step taken as it comes from the request, i + step overflows for steps near the int32 limits and
+// the remainder of the wrapped sum is a different index ((2 + MaxInt32) mod 3 gives 2, not 0). The raw step - an
+// int32 read from the request's map of relative steps, followed into the helpers it is handed to - is never an
+// operand of a 32-bit addition or subtraction: it is reduced modulo the table length first (or widened).
+func r2020(c *an.Ctx, rule string) {
+	var fns []*ssa.Function
+	for _, fn := range c.Prog.FuncsIn("pkg/trait/modepb") {
+		if !c.Prog.IsGenerated(fn.Pos()) && !strings.HasSuffix(c.Prog.RelFile(fn.Pos()), "_test.go") {
+			fns = append(fns, fn)
+		}
+	}
+	raw := map[ssa.Value]bool{}
+	for _, fn := range fns {
+		an.Instrs(fn, func(in ssa.Instruction) {
+			ex, ok := in.(*ssa.Extract)
+			if !ok || ex.Index != 2 {
+				return
+			}
+			nx, ok := ex.Tuple.(*ssa.Next)
+			if !ok {
+				return
+			}
+			rg, ok := nx.Iter.(*ssa.Range)
+			if !ok {
+				return
+			}
+			if mt, isMap := rg.X.Type().Underlying().(*types.Map); isMap {
+				if b, isB := mt.Elem().Underlying().(*types.Basic); isB && b.Kind() == types.Int32 {
+					raw[ex] = true
+				}
+			}
+		})
+	}
+	strip := func(v ssa.Value) ssa.Value {
+		for {
+			if cv, isC := v.(*ssa.Convert); isC {
+				if b, isB := cv.Type().Underlying().(*types.Basic); isB && (b.Kind() == types.Int64 || b.Kind() == types.Float64) {
+					return nil // widened: no 32-bit overflow from here on
+				}
+				v = cv.X
+				continue
+			}
+			if ct, isC := v.(*ssa.ChangeType); isC {
+				v = ct.X
+				continue
+			}
+			return v
+		}
+	}
+	// hand-offs to helpers of the package
+	for changed := true; changed; {
+		changed = false
+		for _, fn := range fns {
+			an.Instrs(fn, func(in ssa.Instruction) {
+				call, ok := in.(ssa.CallInstruction)
+				if !ok {
+					return
+				}
+				callee := call.Common().StaticCallee()
+				if callee == nil || callee.Pkg != fn.Pkg || len(callee.Params) != len(call.Common().Args) {
+					return
+				}
+				for i, a := range call.Common().Args {
+					if sv := strip(a); sv != nil && raw[sv] && !raw[callee.Params[i]] {
+						raw[callee.Params[i]] = true
+						changed = true
+					}
+				}
+			})
+		}
+	}
+	if len(raw) == 0 {
+		c.Unk(rule, "pkg/trait/modepb|relative steps", 0, "no int32 read from a map of relative steps found in the mode package")
+		return
+	}
+	bad, uses := ssa.Instruction(nil), 0
+	for _, fn := range fns {
+		an.Instrs(fn, func(in ssa.Instruction) {
+			bo, ok := in.(*ssa.BinOp)
+			if !ok {
+				return
+			}
+			x, y := strip(bo.X), strip(bo.Y)
+			if !(x != nil && raw[x]) && !(y != nil && raw[y]) {
+				return
+			}
+			uses++
+			if bo.Op != token.ADD && bo.Op != token.SUB {
+				return
+			}
+			if b, isB := bo.Type().Underlying().(*types.Basic); isB && (b.Kind() == types.Int32 || b.Kind() == types.Int16 || b.Kind() == types.Int8) {
+				bad = bo
+			}
+		})
+	}
+	pos := token.NoPos
+	if bad != nil {
+		pos = bad.Pos()
+	}
+	c.Check(bad == nil && uses > 0, rule, "pkg/trait/modepb|a relative step is reduced before it is added", pos, fmt.Sprintf("%d arithmetic uses of the raw step, none a 32-bit addition", uses),
+		"the step is added to the index as it comes from the request and only the sum is reduced: for steps near the int32 limits the addition overflows and the wrapped index is wrong")
 }
